@@ -35,10 +35,18 @@ Qed.
 Lemma c10_disc_ok_eq ik t : disc_type_ok ik t = disc_kind_ok ik t.
 Proof. destruct ik, t; reflexivity. Qed.
 
+(* a member that does not refer to another namespace is not "pending" (Describe.v member_pending_in): the
+   link step has checked it *)
+Lemma c10_not_pending e m : foreign_refs m = false -> member_pending_in e m = false.
+Proof.
+  destruct m; try reflexivity. cbn [foreign_refs member_pending_in]. intros H. rewrite H. reflexivity.
+Qed.
+
 Lemma c10_wf_member_eq e ik fld inl k m :
+  member_pending_in e m = false ->
   Wf.wf_member e ik fld inl (k, m) = okey_is ik k && objlike m && Describe.wf_member e ik fld inl m.
 Proof.
-  unfold Wf.wf_member, Describe.wf_member. cbn [fst snd]. f_equal.
+  intros Hp. unfold Wf.wf_member, Describe.wf_member. rewrite Hp. cbn [fst snd orb]. f_equal.
   change (Wf.member_props e m) with (wf_member_props e m).
   destruct (wf_member_props e m) as [ps|]; [|reflexivity].
   destruct (alookup fld ps) as [p|]; [|reflexivity]. rewrite c10_disc_ok_eq. reflexivity.
@@ -82,8 +90,8 @@ Proof.
     rewrite forallb_forall in Hw1, Hw2, Hs. pose proof (c10_existsb_false _ _ Hf) as Hf'.
     rewrite Forall_forall in H.
     rewrite Hn. cbn [andb]. apply andb_true_intro. split; apply forallb_forall; intros km Hin.
-    + specialize (Hw2 km Hin). specialize (Hs km Hin). destruct km as [k m].
-      rewrite c10_wf_member_eq. cbn [fst snd] in Hs.
+    + specialize (Hw2 km Hin). specialize (Hs km Hin). specialize (Hf' km Hin). destruct km as [k m].
+      rewrite c10_wf_member_eq by (apply c10_not_pending; exact Hf'). cbn [fst snd] in Hs.
       apply andb_prop in Hs as [Hs _]. rewrite Hs. exact Hw2.
     + specialize (Hw1 km Hin). specialize (Hs km Hin). specialize (Hf' km Hin). specialize (H km Hin).
       destruct km as [k m]. cbn [fst snd] in *. apply andb_prop in Hs as [_ Hs]. apply H; assumption.
